@@ -84,8 +84,11 @@ def run(tier, replay=None):
               "of uploads placed before the start; the same transition with plain goroutines; (V) 2..4 channels in ONE storage "
               "directory (unshifted / number-shifted / time-shifted, channel-unique track names) fed for many rounds on a common "
               "clock with a look at every channel's MPDs after every round; (R) burst: the explorer states in which ALL handlers stand "
-              "at the same label (add / reg, then trdatas_r), 3..8 tracks that share AdaptationSets held at that gate and released at "
-              "once; everything in a child built with -race; distinct = distinct schedules + distinct "
+              "at the same label (add / reg, then trdatas_r), 3..10 tracks of CONFIGURED channels (credentials, startNr 1, per-representation "
+              "language/role/label, a configuration file with thousands of other channels) that share AdaptationSets held at that gate "
+              "and released at once, some of them media-first (init segment on disk), while uploads with wrong / no credentials are "
+              "repeated; (V) live: 8..12 tracks of one channel, segments of 2..4 chunks, all handlers held inside the chunk callback "
+              "and released staggered, several rounds, every upload bounded by 12 s; everything in a child built with -race; distinct = distinct schedules + distinct "
               "concurrent configurations; every scenario has >= 2 concurrent first uploads")
     c.assumptions = ["all uploads are well-formed and correctly authenticated by construction, so any answer other than 200 is a lost upload",
                      "the sequential outcome of these uploads is order-independent modulo AdaptationSet ids/order and Representation order "
@@ -97,6 +100,8 @@ def run(tier, replay=None):
                      "sequential reference = every upload processed completely (channel goroutine included) before the next one",
                      "rounds scenarios: shifted channels tune in sequentially (rounds 0,1), the transition itself is the subject of the "
                      "start scenarios",
+                     "an upload that is not answered within 12 s is unanswered (C19.progress); the run is abandoned, after two such runs "
+                     "the driver stops (every one costs the bound)",
                      "race clause: Go race detector / runtime concurrent-map check (sound, not complete); a child killed by the runtime is "
                      "restarted after the scenario that killed it",
                      "steps on the channel table are forced exactly; stream-table / track-table gate releases are not followed by a wait, "
@@ -175,10 +180,11 @@ def run(tier, replay=None):
     shapes, reps = (10, 3) if quick else (60, 8)
     nsets, nstartconc, nrounds, roundlen = (2, 4, 6, 14) if quick else (4, 25, 40, 24)
     nbursts, burstreps = (3, 5) if quick else (20, 10)
-    total = len(gens) + len(sgens) * nsets + nstartconc * nsets + shapes * reps + nrounds + nbursts * 2 * burstreps
+    nlives, livelen = (3, 4) if quick else (20, 6)
+    total = len(gens) + len(sgens) * nsets + nstartconc * nsets + shapes * reps + nrounds + nbursts * 2 * burstreps + nlives
     max_children = 40 if quick else 400
     base = ["-gen", genf, "-sgen", sgenf, "-startsets", nsets, "-startconc", nstartconc, "-rounds", nrounds, "-roundlen", roundlen,
-            "-bursts", nbursts, "-burstreps", burstreps,
+            "-bursts", nbursts, "-burstreps", burstreps, "-lives", nlives, "-livelen", livelen,
             "-seed", c.seed, "-shapes", shapes, "-reps", reps, "-tmp", c.work]
     parts, sites, crashes, start = [], {}, [], 0
     while start < total and len(parts) < max_children:
@@ -253,24 +259,27 @@ def run(tier, replay=None):
         try:
             d = json.loads(f.get("detail") or "null")
             if isinstance(d, dict):
-                for k in ("files_equal", "mpd_equal", "tl_equal", "unprocessed", "quiesced"):
+                for k in ("files_equal", "mpd_equal", "tl_equal", "status_equal", "unprocessed", "quiesced"):
                     if k in d:
                         f[k] = d[k]
         except ValueError:
             pass
-        for k in ("files", "mpd", "tracks", "shape", "tl", "own", "ids"):
+        for k in ("files", "mpd", "tracks", "shape", "tl", "own", "ids", "st", "pre"):
             f.pop(k, None)
         c.add_failure(f)
-    # non-vacuity of the binding
-    need = {"hdr", "ref", "chan_created", "up:init", "up:media", "process", "final", "end", "mpdcheck"}
-    if not need <= seen_ev:
-        raise MachineryError(f"vacuity: trace lacks events {sorted(need - seen_ev)}")
-    if kinds.get("replay", 0) < 20 and not crashes:
-        raise MachineryError(f"vacuity: only {kinds.get('replay', 0)} schedules replayed")
-    if (kinds.get("start", 0) < 20 or kinds.get("rounds", 0) < 1) and not crashes:
-        raise MachineryError(f"vacuity: start / rounds scenarios missing: {kinds}")
-    if kinds.get("burst", 0) < 10 and not crashes:
-        raise MachineryError(f"vacuity: burst scenarios missing: {kinds}")
+    # non-vacuity of the binding (a verdict of violation does not depend on it: a driver that met unanswered uploads
+    # stops early, see the note event stopped_early)
+    if not c.failures:
+        need = {"hdr", "ref", "chan_created", "up:init", "up:media", "process", "final", "end", "mpdcheck"}
+        if not need <= seen_ev:
+            raise MachineryError(f"vacuity: trace lacks events {sorted(need - seen_ev)}")
+        if not crashes:
+            for kind, least in (("replay", 20), ("start", 20), ("rounds", 1), ("burst", 10), ("live", 1), ("conc", 5)):
+                if kinds.get(kind, 0) < least:
+                    raise MachineryError(f"vacuity: only {kinds.get(kind, 0)} scenarios of kind {kind}: {kinds}")
+        creds = {e.get("cred") for e in events if e["ev"] == "up"}
+        if not {"ok", "wrong", "none"} <= creds:
+            raise MachineryError(f"vacuity: uploads with credentials {sorted(creds)} only")
     c.traces = sum(kinds.values())
     c.events = lines
     c.distinct_nontrivial = len(distinct)
